@@ -21,6 +21,7 @@ CLAIMS = {
  "C05": ("model_checking", "Layout.tla invariants (alloc = release, fits, aligned, overflow refused) over the whole matrix; the allocator's (size, align) at alloc and dealloc for every constructor x release path of the real sub-lattice equals the specification's table.", N_LAY, T_LAY, "DESIGN.md §6 C05"),
  "C08": ("model_checking", "Copy-on-write action properties (isolation, clones iff shared, fresh sole-owned block) on every transition; replay compares block identity, clone calls and values through all handles; ArcMM make_mut program race-free under the extracted protocol.", N_GRAPH + "; " + N_MM, T_GRAPH + " + " + T_MM, "DESIGN.md §6 C08"),
  "C09": ("model_checking", "Conservation invariants (destroyed xor moved out, once) and MovesOutOnlyWhenSole on the specification; replay with identity accounting of the moved-out value; ArcMM with threads racing unwrap/drop.", N_GRAPH + "; " + N_MM, T_GRAPH + " + " + T_MM, "DESIGN.md §6 C09"),
+ "C10": ("model_checking", "Thin.tla: every ThinArc sits on a block whose recorded length is the slice length; thin<->fat conversions count-neutral; mismatching into_thin panics and releases; with_arc_mut write-back on return and on unwind after replace/swap. Every transition (plus random walks) replayed; thin view compared with the fat view address for address; Layout.tla length-word offset over the matrix.", N_GRAPH + "; " + N_LAY, T_GRAPH + " + " + T_LAY, "DESIGN.md §6 C10"),
  "C11": ("model_checking", "Layout.tla data offsets and from_raw inversion over the matrix; pointer values of every accessor compared with the allocator's block address and the specification's offsets for every shape and into/from pairing; raw round trips in the handle-level graph.", N_LAY + "; " + N_GRAPH, T_LAY + " + " + T_GRAPH, "DESIGN.md §6 C11"),
  "C12": ("model_checking", "ArcUnion variant/typed-release invariants on the specification, union histories interleaved with plain Arcs replayed; tag bit free and typed layout over ordered shape pairs of the matrix.", N_GRAPH + "; " + N_LAY, T_GRAPH + " + " + T_LAY, "DESIGN.md §6 C12"),
 }
